@@ -286,6 +286,7 @@ def check_deadline_shape(ck: Checker, rid: str, f: FuncInfo, *, queue: str, wait
         return out
 
     clock = {'perf_counter()', 'time.perf_counter()', 'time.monotonic()', 'monotonic()', 'time.time()'}
+    wall = {'time.time()', 'time()', 'datetime.now()', 'datetime.datetime.now()', 'datetime.utcnow()'}
     for n, c in gets_in:
         if method_of(c)[1] == 'get_nowait':
             continue
@@ -301,6 +302,8 @@ def check_deadline_shape(ck: Checker, rid: str, f: FuncInfo, *, queue: str, wait
             continue
         if not (clock & dep):
             probs.append(f'the timeout `{norm_text(t)}` does not shrink with the clock')
+        if wall & (dep | set().union(*[depends(defs[v][0].ast.value) for v in dl])):
+            probs.append(f'the deadline / remaining wait of the get at L{n.lineno} is measured with the wall clock ({sorted(wall & (dep | set().union(*[depends(defs[v][0].ast.value) for v in dl])))[0]}): when the system time is stepped between two elements of a batch, the batch is held that much longer than told (or cut short although the next element arrived in time) — deadlines need a monotonic clock')
         # deadline computed after the first get, before the loop
         for v in dl:
             for dn in defs[v]:
